@@ -18,7 +18,7 @@ from ..errors import InvalidExchangeKeyError
 from ..rfc7517.models import CurveKey
 from ..rfc7517.pem import CryptographyBinding
 from ..rfc7517.types import KeyParameters
-from ..util import base64_to_int, int_to_base64
+from ..util import base64_to_int, urlsafe_b64encode
 from ..registry import KeyParameter
 
 __all__ = ['ECKey']
@@ -69,11 +69,12 @@ class ECBinding(CryptographyBinding):
     @classmethod
     def export_private_key(cls, key: EllipticCurvePrivateKey) -> ECDictKey:
         numbers = key.private_numbers()
+        size = key.curve.key_size
         return {
             "crv": cls._curves_dss[key.curve.name],
-            "x": int_to_base64(numbers.public_numbers.x),
-            "y": int_to_base64(numbers.public_numbers.y),
-            "d": int_to_base64(numbers.private_value),
+            "x": _encode_coordinate(numbers.public_numbers.x, size),
+            "y": _encode_coordinate(numbers.public_numbers.y, size),
+            "d": _encode_coordinate(numbers.private_value, size),
         }
 
     @classmethod
@@ -89,11 +90,20 @@ class ECBinding(CryptographyBinding):
     @classmethod
     def export_public_key(cls, key: EllipticCurvePublicKey) -> ECDictKey:
         numbers = key.public_numbers()
+        size = numbers.curve.key_size
         return {
             "crv": cls._curves_dss[numbers.curve.name],
-            "x": int_to_base64(numbers.x),
-            "y": int_to_base64(numbers.y),
+            "x": _encode_coordinate(numbers.x, size),
+            "y": _encode_coordinate(numbers.y, size),
         }
+
+
+def _encode_coordinate(num: int, key_size: int) -> str:
+    # https://www.rfc-editor.org/rfc/rfc7518#section-6.2.1.2
+    # the octet string MUST be the full size of a coordinate for the curve,
+    # leading zero octets included (also for "d", section 6.2.2.1)
+    value = num.to_bytes((key_size + 7) // 8, "big")
+    return urlsafe_b64encode(value).decode("ascii")
 
 
 class ECKey(CurveKey[EllipticCurvePrivateKey, EllipticCurvePublicKey]):
